@@ -442,6 +442,8 @@ def thread_jumps(raw, max_chain=48, budget=160):
                 b = blocks[cur]
                 if b.get("cleanup") or cur in chain:
                     break
+                if cur != m and (b.get("jt_done") or b.get("jt_clone") is not None):
+                    break           # already threaded from a later point: nothing more to gain, and no reason to copy what leads up to it
                 for s in b["stmts"]:
                     _eval_stmt(e2, s)
                 chain.append(cur)
@@ -454,6 +456,8 @@ def thread_jumps(raw, max_chain=48, budget=160):
                     cur = t["target"]
                     continue
                 if t["k"] == "switch":
+                    if any("debug_assert" in m_ for s_ in b["stmts"] for m_ in s_.get("macros", [])):
+                        break       # `if cfg!(debug_assertions)`: left as it is (the panic analysis recognises the assertion by this test)
                     v = _rep(e2, t["discr"])
                     if v and v[0] == "int":
                         tgt_ = t["otherwise"]
@@ -501,6 +505,13 @@ def thread_jumps(raw, max_chain=48, budget=160):
             r0 = try_fold(m, {})
             if r0 is None:
                 continue
+            # the literal built in *this* block must be what decides the switch (otherwise a later block will be threaded on its own
+            # and copying the blocks in between would only duplicate statements)
+            nx_ = mb["term"].get("target") if mb["term"]["k"] in ("goto", "drop") else None
+            if nx_ is not None and len(r0[0]) > 1:
+                r1_ = try_fold(nx_, {})
+                if r1_ is not None and len(r1_[1]) >= len(r0[1]):
+                    continue
             chain, folds, final, e2 = r0
             budget -= 1
             progress = True
